@@ -100,7 +100,7 @@ struct Ctx {
     }
 };
 
-#define MEMSIM_REG(vec, fn, nm, fam, flags) (vec).push_back(::memsim::OpDesc{nm, fam, &fn, (uint32_t)(flags)})
+#define MEMSIM_REG(vec, fn, nm, fam, flags) (vec).push_back(::memsim::OpDesc{nm, fam, fn, (uint32_t)(flags)})
 
 } // namespace memsim
 #endif
